@@ -67,10 +67,10 @@ def same_behaviour(r0, rk):
     ck, ok_, ek = rk
     if c0 == "timeout" or ck == "timeout":
         return (o0 or "").startswith(ok_ or "") or (ok_ or "").startswith(o0 or "")
-    enc0 = "[error] utf-8 encoding error" in e0
+    enc0 = "[error]" in e0 and c0 == "exit1"          # a diagnosed stop (the wording of the diagnostic is free)
     if enc0:
         # same kind of error; text written before it may be withheld (also entirely, when optimisation itself hits the error)
-        return (ck == c0 and "[error] utf-8 encoding error" in ek and (o0 or "").startswith(ok_ or "")
+        return (ck == c0 and "[error]" in ek and (o0 or "").startswith(ok_ or "")
                 and e0.split("[error]")[0].startswith(ek.split("[error]")[0]))
     if o0 is None or ok_ is None:
         return c0 == ck and o0 == ok_ and e0.split("[error]")[0] == ek.split("[error]")[0]
